@@ -319,6 +319,30 @@ def documents(thorough):
         yield "malformed-root:" + kind, doc(n)
         yield "malformed-child:" + kind, doc(elem("r", children=P(L(n))))
         yield "malformed-deep:" + kind, doc(elem("r", children=P(L("t", elem("m", children=P(L(elem("ok"), n)))))))
+    # field order: the converter reads a node's fields in the order they were written, so every
+    # order of every field set is a different path through its loop
+    full = [("name", "f"), ("attrs", T(("k", "v"))), ("ns", "http://example.org/d"), ("children", L("t", elem("g")))]
+    for perm in itertools.permutations(full):
+        yield "field-order", doc(T(*perm))
+        yield "field-order", doc(elem("r", children=P(L(T(*perm), elem("z")))))
+    bad_sets = [("name-and-text", [("name", "x"), ("text", "t")]),
+                ("name-and-text+attrs", [("name", "x"), ("text", "t"), ("attrs", T(("k", "v")))]),
+                ("name-and-text+children", [("name", "x"), ("text", "t"), ("children", L("u"))]),
+                ("name-and-text+ns", [("name", "x"), ("text", "t"), ("ns", "http://example.org/d")]),
+                ("name-and-null-text", [("name", "x"), ("text", None), ("children", L("u"))]),
+                ("text-and-attrs", [("text", "t"), ("attrs", T(("k", "v")))]),
+                ("text-and-children", [("text", "t"), ("children", L("u"))]),
+                ("name-not-string+children", [("name", {"i": "1"}), ("children", L("u"))]),
+                ("attrs-not-tuple+children", [("name", "x"), ("attrs", "s"), ("children", L("u"))]),
+                ("children-not-list+attrs", [("name", "x"), ("children", "s"), ("attrs", T(("k", "v")))])]
+    for kind, fields in bad_sets:
+        for perm in itertools.permutations(fields):
+            order = "-".join(k for k, _ in perm)
+            yield "field-order-root:%s:%s" % (kind, order), doc(T(*perm))
+            yield "field-order-child:%s:%s" % (kind, order), doc(elem("r", children=P(L(T(*perm)))))
+            yield "field-order-deep:%s:%s" % (kind, order), doc(elem("r", children=P(L("t", elem("m", children=P(L(elem("ok"), T(*perm))))))))
+    for perm in itertools.permutations([("version", "1.1"), ("encoding", "utf-8"), ("standalone", True), ("root", elem("r", children=P(L("t"))))]):
+        yield "field-order-document", T(*perm)
     yield "malformed:no-root", T(("version", "1.0"))
     yield "malformed:empty-doc", T()
     yield "malformed:doc-not-tuple", L()
@@ -391,7 +415,9 @@ def run(ctx):
     ctx.rule = ("document tuples: every node-shape tree to depth %d (element / bare string / {text=} leaves, children absent / NULL / [] / 1..2 "
                 "nodes) as root, under a root and between siblings; %d XML-significant strings as text in 6 positions x 2 text forms and as "
                 "attribute values in 3 positions; 8 attribute sets x 4 children forms; 5 name forms; 7 x 7 namespace forms on parent and child; "
-                "7 x 3 x 4 declaration options; 16 malformed node kinds at 3 depths + 6 malformed documents. All distinct; non-trivial = the "
+                "7 x 3 x 4 declaration options; 16 malformed node kinds at 3 depths + 6 malformed documents; every order of the fields of a full element "
+                "(24, as root and as child), of 10 field sets that mix name/text/attrs/children validly and invalidly (at 3 depths) and of the "
+                "document's own fields (24). All distinct; non-trivial = the "
                 "converter answered and the answer was judged." % (3 if thorough else 2, len(TEXTS)))
     viol = []
     for part in core.pmap(work, docs, chunk=120):
@@ -404,13 +430,13 @@ def run(ctx):
     viol.sort(key=lambda v: len(core.json.dumps(v[1])))
     seen = {}
     for cls, w, oc, detail in viol:
-        if cls.startswith("malformed"):
+        if cls.startswith(("malformed", "field-order-")):
             sig = "%s:%s" % (oc, cls)
         elif cls.startswith(("text", "attr-value")):
             s = TEXTS[int(cls.split("|")[1])]
             sig = "%s:%s:%s" % (oc, "attr-value" if cls.startswith("attr-value") else "text", text_feature(s))
         else:
-            sig = "%s:%s:%s" % (oc, cls, (detail.get("diff") if isinstance(detail, dict) else str(detail))[:60])
+            sig = "%s:%s:%s" % (oc, cls, str((detail.get("diff") or detail.get("why") or detail.get("parser")) if isinstance(detail, dict) else detail)[:60])
         if sig in seen:
             ctx.violations[sig]["count"] += 1
             continue
